@@ -15,10 +15,10 @@ var minOblFloor = map[string]int{
 	"C11": 16,
 	"C12": 38, // enumerated: map ranges, clock sites, goroutines on the consensus path
 	"C13": 36, // enumerated: cache inventory
-	"C14": 59, "C15": 18, "C16": 18, "C17": 35, "C18": 28, "C19": 44, "C20": 26, "C21": 39, "C23": 34, "C24": 68, "C25": 48,
+	"C14": 59, "C15": 18, "C16": 19, "C17": 35, "C18": 28, "C19": 44, "C20": 26, "C21": 39, "C23": 34, "C24": 68, "C25": 48,
 	"C26": 26,
 	"C27": 12, // enumerated: loops in the arithmetic closure
 	"C28": 52, "C30": 27, "C31": 8, "C32": 52, "C33": 29, "C34": 19, "C35": 41, "C36": 34, "C37": 37,
 	"C38": 52, // enumerated: GetSignBytes implementations
-	"C39": 13, "C40": 23, "C42": 39, "C43": 42,
+	"C39": 13, "C40": 23, "C42": 42, "C43": 42,
 }
